@@ -306,7 +306,7 @@ def native_lib(asan=True):
         p = os.path.join(SRC, n)
         if os.path.exists(p):
             srcs.append(p)
-    san = ["-fsanitize=address,undefined", "-fno-sanitize-recover=undefined"] if asan else []
+    san = ["-fsanitize=address,undefined"] if asan else []
 
     def one(p):
         o = os.path.join(wd, os.path.basename(p)[:-2] + ".o")
@@ -343,8 +343,7 @@ def native_replay(job, inputs):
         # #includes textually (static functions), which then shadow the archive member
         srcs = []
     cc = ["cc", "-g", "-O0", "-DVERIF_NATIVE", "-DHARNESS=" + job.entry] + BASE_DEF + defs + BASE_INC + \
-        ["-I" + os.path.dirname(job.harness), "-fsanitize=address,undefined",
-         "-fno-sanitize-recover=undefined", job.harness,
+        ["-I" + os.path.dirname(job.harness), "-fsanitize=address,undefined", job.harness,
          os.path.join(VERIF, "include", "verif_native.c"),
          os.path.join(VERIF, "stubs", "verif_err.c")] + list(srcs) + [lib, "-lm", "-lyaml", "-o", exe]
     rc, out, err, _ = sh(cc, timeout=300, mem=False)
@@ -353,7 +352,7 @@ def native_replay(job, inputs):
     env = dict(os.environ, VERIF_REPLAY_VALUES=vf, ASAN_OPTIONS="detect_leaks=1:abort_on_error=0",
                UBSAN_OPTIONS="print_stacktrace=1")
     rc, out, err, _ = sh([exe], timeout=60, env=env, mem=False)
-    reproduced = rc != 0
+    reproduced = rc != 0 or "runtime error:" in err or "AddressSanitizer" in err
     return dict(built=True, rc=rc, reproduced=reproduced, stderr=err[-3000:], stdout=out[-500:],
                 cmd=" ".join(cc), values_file=vf)
 
@@ -538,6 +537,9 @@ def run_property(prop, jobs, tier, level="proof", assumptions=(), trusted_base=(
     with open(os.path.join(VERIF, "evidence", prop + ".json"), "w") as f:
         json.dump(ev, f, indent=1)
 
+    with open(os.path.join(BUILD, prop, "timings.json"), "w") as f:
+        json.dump(sorted([(r["seconds"], j.name, c, r["status"]) for j, c, r in results], reverse=True), f, indent=0)
+
     # ------------------------------------------------------------------ verdict
     print("%s tier=%s jobs=%d obligations=%d discharged=%d wall=%.0fs" %
           (prop, tier, ev["coverage"]["jobs"], obligations, discharged, time.time() - t0))
@@ -552,9 +554,12 @@ def run_property(prop, jobs, tier, level="proof", assumptions=(), trusted_base=(
     if violations:
         for ln in vio_lines:
             print(ln)
-        for j, ent in violations[:40]:
-            print("  failed: %s :: %s [%s] (%s:%s)" % (j.name, ent["description"], ent["obligation"],
-                                                      ent["file"], ent["line"]))
+        agg = {}
+        for j, ent in violations:
+            key = (j.entry, ent["description"], ent["file"], ent["line"])
+            agg.setdefault(key, []).append(j.name)
+        for (entry, desc, fl, ln), names in sorted(agg.items(), key=lambda kv: (kv[0][0], str(kv[0][2]), str(kv[0][3]))):
+            print("  failed[%s] x%d: %s (%s:%s) e.g. %s" % (entry, len(names), desc, fl, ln, names[0]))
         return 1
     if infra:
         return 2
